@@ -24,7 +24,7 @@ func runC18(c *Ctx) {
 	c.Res.Rule = "messages (compressed or not, any sections, 0..300 additional records) x supported algorithms x keys x validity windows; every single-bit alteration and every truncation point of small signed messages; distinct by content"
 	algs := []uint8{dns.ED25519, dns.ECDSAP256SHA256, dns.ECDSAP384SHA384, dns.RSASHA256}
 	if c.Tier == "thorough" {
-		algs = append(algs, dns.RSASHA1, dns.RSASHA512)
+		algs = append(algs, dns.RSASHA1, dns.RSASHA512, dns.RSASHA1NSEC3SHA1)
 	}
 	keys := map[uint8]*signKey{}
 	for _, a := range algs {
@@ -379,6 +379,29 @@ func runC18(c *Ctx) {
 			})
 			c.Pred("rsa-sizes", "sig0-verifies", in, res == "ok", res, "ok", true)
 		}
+	}
+	// every algorithm SIG.Sign accepts is one SIG.Verify accepts: one small message per RSA flavour (the quick tier draws its
+	// messages for algorithm 8 only)
+	for _, alg := range []uint8{dns.RSASHA1, dns.RSASHA1NSEC3SHA1, dns.RSASHA256, dns.RSASHA512} {
+		k := newSignKey(r, alg, "signer.example.")
+		key := keyRRFrom(k.key)
+		m := new(dns.Msg)
+		m.SetQuestion("alg.example.", dns.TypeSOA)
+		s := new(dns.SIG)
+		s.Algorithm, s.KeyTag, s.SignerName = alg, key.KeyTag(), "signer.example."
+		at := uint32(time.Now().Unix())
+		s.Inception, s.Expiration = at-300, at+300
+		res := guard(func() string {
+			out, err := s.Sign(k.signer, m)
+			if err != nil {
+				return "sign: " + err.Error()
+			}
+			if err := s.Verify(key, out); err != nil {
+				return "verify: " + err.Error()
+			}
+			return "ok"
+		})
+		c.Pred("algorithms", "sign-then-verify", fmt.Sprintf("alg=%d", alg), res == "ok" || (len(res) > 5 && res[:5] == "sign:"), res, "ok (or not signable at all)", true)
 	}
 }
 
